@@ -398,6 +398,14 @@ Definition add_files (rs : list range) (fs : list text) : list text :=
   fold_left (fun acc r => set_insert (rpath r) acc) rs fs.
 Definition file_set (rs : list range) : list text := add_files rs [].
 
+(* what scan_diff should return on the printed patch *)
+Definition expected_result (p : nat) (filt : text -> bool) (d : patch) : res (list text * list range) :=
+  Ok (file_set (expected p filt d), expected p filt d).
+
+(* the printed patch as one text, and the lines for which BufRead::lines gives back the line itself *)
+Definition line_clean (l : text) : Prop :=
+  ~ In LF l /\ match rev l with c :: _ => is_cr c = false | [] => True end.
+
 (* ------------------------------------------------------------------ *)
 (* Well-formedness: what the theorems need; every conjunct has a counterexample in Props.v *)
 
@@ -425,33 +433,50 @@ Definition body_shape (l : text) : Prop :=
   | c :: _ => c = SP \/ c = PLUS \/ c = MINUS \/ c = BACKSLASH
   end.
 
-(* (d) an added line whose own text starts with `++` and a whitespace character *)
-Definition body_line_ok (l : text) : Prop := body_shape l /\ plus3ws l = false.
-
 (* (e) the numbers of the post-image fit u32, and so does their sum when it is computed *)
 Definition fits_u32 (h : hunk) : Prop :=
   n_start h <= U32_MAX /\ n_cnt h <= U32_MAX /\ (n_cnt h <> 0 -> n_start h + n_cnt h <= U32_MAX).
 
-Definition hunk_common_ok (h : hunk) : Prop := Forall body_line_ok (body h) /\ fits_u32 h.
-
 Definition all_zero (f : file_diff) : Prop := Forall (fun h => n_cnt h = 0) (hunks f).
 
-Definition file_common_ok (p : nat) (f : file_diff) : Prop :=
-  Forall (fun l => at2 l = false) (preamble f)                    (* extended headers do not look like hunk headers *)
-  /\ stamp_ok (new_stamp f)
-  /\ (forall s, strip p (new_path f) = Some s -> no_ws s)         (* (c) *)
-  /\ Forall hunk_common_ok (hunks f).
+(* the conditions, one by one; each is a predicate on one file of the patch *)
+Inductive cond : Type :=
+| CPre        (* extended header lines (diff --git, index, ...) do not start with @@ *)
+| CStamp      (* what follows the post-image path is nothing or starts with a whitespace character *)
+| CPath       (* (c) the stripped post-image path contains no whitespace *)
+| CShape      (* body lines are empty or start with ' ', '+', '-', '\' *)
+| CBody       (* (d) no body line starts with `+++` and a whitespace character *)
+| CU32        (* (e) post-image numbers fit u32 *)
+| CSection    (* (a) the section text contains no '+' followed by a digit *)
+| CSlashes.   (* (b) the post-image path has at least p slashes (or the file has no post-image lines) *)
 
-(* for the code as it is *)
-Definition file_ok (p : nat) (f : file_diff) : Prop :=
-  file_common_ok p f
-  /\ Forall (fun h => has_plus_digit (section h) = false) (hunks f)   (* (a) *)
-  /\ (strip p (new_path f) <> None \/ all_zero f).                    (* (b) *)
-Definition well_formed (p : nat) (d : patch) : Prop := Forall (file_ok p) d.
+Definition holds (p : nat) (k : cond) (f : file_diff) : Prop :=
+  match k with
+  | CPre => Forall (fun l => at2 l = false) (preamble f)
+  | CStamp => stamp_ok (new_stamp f)
+  | CPath => forall s, strip p (new_path f) = Some s -> no_ws s
+  | CShape => Forall (fun h => Forall body_shape (body h)) (hunks f)
+  | CBody => Forall (fun h => Forall (fun l => plus3ws l = false) (body h)) (hunks f)
+  | CU32 => Forall fits_u32 (hunks f)
+  | CSection => Forall (fun h => has_plus_digit (section h) = false) (hunks f)
+  | CSlashes => strip p (new_path f) <> None \/ all_zero f
+  end.
 
 (* for the repaired scanner: (a) is gone; of (b) there remains the case where the stamp supplies the
    missing slashes *)
-Definition file_ok_fixed (p : nat) (f : file_diff) : Prop :=
-  file_common_ok p f
-  /\ (strip p (new_path f) = None -> no_slash (new_stamp f) \/ all_zero f).   (* (b') *)
-Definition well_formed_fixed (p : nat) (d : patch) : Prop := Forall (file_ok_fixed p) d.
+Definition holds_fixed (p : nat) (k : cond) (f : file_diff) : Prop :=
+  match k with
+  | CSection => True
+  | CSlashes => strip p (new_path f) = None -> no_slash (new_stamp f) \/ all_zero f
+  | _ => holds p k f
+  end.
+
+(* for the code as it is *)
+Definition well_formed (p : nat) (d : patch) : Prop := forall k, Forall (holds p k) d.
+(* for the repaired scanner *)
+Definition well_formed_fixed (p : nat) (d : patch) : Prop := forall k, Forall (holds_fixed p k) d.
+(* everything but one condition: used to show that each condition is needed *)
+Definition well_formed_except (x : cond) (p : nat) (d : patch) : Prop :=
+  forall k, k <> x -> Forall (holds p k) d.
+Definition well_formed_fixed_except (x : cond) (p : nat) (d : patch) : Prop :=
+  forall k, k <> x -> Forall (holds_fixed p k) d.
